@@ -5,7 +5,7 @@ import numpy as np
 from ..runner import Acc, HarnessError
 from ..refmodel import Fmt
 from .. import alphabet as al
-from ..common import Fxp, fx, codes, flags, fmt_of, reset_class_state, build, AGED
+from ..common import Fxp, fx, codes, flags, fmt_of, reset_class_state, build, AGED, ENVS
 
 ID = 'C15'
 RULE = ('cases = (shape, format, fill pattern, function, call route {numpy function, method}, axis); the result must be an Fxp whose exact values '
@@ -341,6 +341,8 @@ def run_shard(sh):
                     judge(acc, f, shape, cs, fn, route, kw, 'R', 'value')
                 r = judge(acc, f, shape, cs, fn, route, kw, 'R')
                 nth += 1
+                if cs is fl[-2] and (nth % 3 == 1 or f.n_word <= 2):
+                    judge(acc, f, shape, cs, fn, route, kw, 'R', 'env:' + ENVS[(nth // 3) % len(ENVS)])       # operand in an environment
                 if cs is fl[-1] and (nth % 3 == 0 or f.n_word <= 2):
                     judge(acc, f, shape, cs, fn, route, kw, 'R', AGED[(nth // 3) % len(AGED)])       # operand reached through a history
                 key = (fn, tuple(sorted(kw.items())))
